@@ -156,7 +156,7 @@ def decl_src(d, i):
 
 def pkg_files(node):
     """file name -> Go source of one directory."""
-    pkgname = re.sub(r"[^a-z0-9]", "", node["rel"].split("/")[-1]) or "pk"
+    pkgname = node.get("pkgname") or re.sub(r"[^a-z0-9]", "", node["rel"].split("/")[-1]) or "pk"
     out = {}
     by_file = {}
     for i, d in enumerate(node["decls"]):
@@ -237,6 +237,15 @@ def gen_decls(rng, rich):
     return decls
 
 
+def gen_twin_decls(rng):
+    names = rng.sample(["Client", "Server", "Store", "Codec", "handler"], rng.randint(2, 4))
+    ds = [{"name": n, "form": "iface", "file": "a.go"} for n in names]
+    if rng.random() < 0.5: ds.append({"name": "Def", "form": "from_ident", "target": names[0], "file": "a.go"})
+    if rng.random() < 0.5: ds.append({"name": "Opts", "form": "struct", "file": "b.go"})
+    if rng.random() < 0.4: ds.append({"name": names[0], "form": "local", "file": "b.go"})
+    return ds
+
+
 # ------------------------------------------------------------------ trees
 def gen_tree(rng):
     """Directories below the module root.  class: go | nogo | onlytest | never | ignored (testdata, _x)."""
@@ -269,6 +278,20 @@ def gen_tree(rng):
         if rng.random() < 0.4:
             nodes.append({"rel": tp + "/_hid", "class": "ignored", "decls": [],
                           "extra": {"h.go": "package hid\n\ntype H interface{ M() }\n"}})
+    # cross-package state: several packages with the SAME package name (different import paths; one in a
+    # directory with another name) that declare interfaces, structs and files with the SAME names, plus
+    # the same interface names in a package with a different name
+    shared = gen_twin_decls(rng)
+    go("tw")
+    for rel, pkgname in (("tw/v1/api", None), ("tw/v2/api", None), ("tw/v3/other", "api"), ("tw/v1/misc", None)):
+        ds = copy.deepcopy(shared)
+        if rng.random() < 0.5:      # drop one interface (never the first: it may be a target)
+            cand = [j for j, d in enumerate(ds) if d["form"] == "iface" and j > 0]
+            if cand: del ds[rng.choice(cand)]
+        if rng.random() < 0.5: ds.append({"name": "Only" + rel.split("/")[1].upper(), "form": "iface", "file": "b.go"})
+        n = {"rel": rel, "class": "go", "decls": ds}
+        if pkgname: n["pkgname"] = pkgname
+        nodes.append(n)
     if rng.random() < 0.6:
         go("p0x", rich=False)          # shares a string prefix with p0 but is not below it
         if rng.random() < 0.5: go("p0x/a")
@@ -348,6 +371,12 @@ def gen_config(rng, nodes, shape=None):
     elif shape in ("nested", "explicit_child"): chosen = chain[:1] + rng.sample(chain[1:], min(1, len(chain) - 1))
     elif shape == "triple": chosen = chain[:1] + rng.sample(chain[1:], min(2, len(chain) - 1))
     elif shape == "rootrec": chosen = rng.sample([n["rel"] for n in gos], min(len(gos), 2)); root["rec"] = True
+    elif shape == "twins_explicit":
+        tw = [n["rel"] for n in gos if n["rel"].startswith("tw/")]
+        chosen = rng.sample(tw, rng.randint(2, len(tw))) + ([rng.choice(chain)] if chain and rng.random() < 0.4 else [])
+    elif shape == "twins_recursive":
+        chosen = [rng.choice(["tw", "tw", "tw/v1"]) if "tw/v1" in by_rel else "tw"]
+        if chosen == ["tw/v1"] or rng.random() < 0.4: chosen.append(rng.choice(["tw/v2/api", "tw/v3/other"]))
     else: chosen = rng.sample([n["rel"] for n in gos], min(len(gos), rng.randint(1, 4)))
     if "p0x" in by_rel and shape in ("single", "nested") and rng.random() < 0.3: chosen.append("p0x")
     pkgs = {}
@@ -360,6 +389,18 @@ def gen_config(rng, nodes, shape=None):
         if rng.random() < 0.5: c["all"] = rng.random() < 0.5
         if rng.random() < 0.5: c["inc"] = gen_resrc(rng, words)
         if rng.random() < 0.35: c["exc"] = gen_resrc(rng, words)
+        if shape in ("twins_explicit", "twins_recursive"):
+            # mostly the same selection and the same struct-name mark in all twins, so that every
+            # (package name, interface, struct name, file name) coincides and only the path differs
+            c = empty_cfg()
+            k = rng.random()
+            if k < 0.5: c["all"] = True
+            elif k < 0.8: c["inc"] = {"t": "ok", "p": {"bos": False, "body": ("class", False, [("A", "Z")]), "eos": False}}
+            else: c["inc"] = gen_resrc(rng, words, bad=0)
+            if rng.random() < 0.3: c["mark"] = "_P%d" % i
+            if shape == "twins_recursive" and rel in ("tw", "tw/v1"): c["rec"] = True
+            pkgs[path_of(rel)] = {"null": False, "cfg": c, "ifaces": gen_ifaces(rng, by_rel[rel], tags, 0.3)}
+            continue
         if shape in ("single", "nested", "triple"): c["rec"] = True if rng.random() < 0.9 else None
         elif shape == "explicit_child": c["rec"] = True if rel == "p0" else rng.choice([False, None])
         elif rng.random() < 0.4: c["rec"] = rng.random() < 0.6
@@ -709,11 +750,11 @@ def gen_cases(ctx):
     if not ctx.thorough():
         tab = rng.sample(tab, 96)
     cases += tab
-    ntrees = 160 if ctx.thorough() else 16
-    shapes = ["flat", "single", "nested", "nested", "triple", "explicit_child", "rootrec", "random"]
+    ntrees = 160 if ctx.thorough() else 14
+    shapes = ["flat", "single", "nested", "twins_explicit", "twins_recursive", "triple", "explicit_child", "rootrec", "nested", "random"]
     for t in range(ntrees):
         nodes = gen_tree(rng)
-        for k in range(8 if ctx.thorough() else 7):
+        for k in range(10 if ctx.thorough() else 8):
             cfg = gen_config(rng, nodes, shape=shapes[k % len(shapes)])
             cases.append({"nodes": nodes, "config": cfg, "label": "tree%d:%s" % (t, cfg["shape"])})
     return cases
